@@ -366,6 +366,16 @@ class PosInterp:
                     if len(paths) == 1:
                         return paths[0][1]
                     raise Giveup("helper %s has %d paths" % (base_nm, len(paths)))
+            if k == "CXXMemberCallExpr":
+                # a member function that is not followed, called on a sub-object of the iterator: it may move it, so nothing can be said
+                cn_ = ir.strip(ks[0])
+                if cn_.get("kind") in ("MemberExpr", "CXXDependentScopeMemberExpr") and ir.ekids(cn_):
+                    try:
+                        b_ = self.ev(ir.ekids(cn_)[0], env)
+                    except Giveup:
+                        b_ = None
+                    if isinstance(b_, tuple) and b_ and b_[0] == "obj" and b_ is not env.get("this") and not re.search(r"\)\s*const", ir.qtype(cn_) or ""):
+                        raise Giveup("member function %s of a sub-object is not followed" % name)
             args = [self.ev(a, env) for a in ks[1:]]
             return ("call", name) + tuple(args)
         if k in ("CXXConstructExpr", "CXXUnresolvedConstructExpr", "CXXTemporaryObjectExpr", "InitListExpr", "ParenListExpr"):
@@ -685,16 +695,49 @@ def rule_step(rep, d, classes):
         if not fields:
             rep.inconclusive("C12.step", cname, "fields", where=d.where(cls), detail="no data members found")
             continue
+        # a data member that is itself a small record of the library holding the sub-iterators (`detail::xlockstep_iterators<IT1, IT2> m_its`):
+        # its own fields are the positions, its methods are followed like the iterator's own helpers
+        composite = {}
+        for c in ir.kids(cls):
+            if c.get("kind") != "FieldDecl":
+                continue
+            tn = re.sub(r"<.*", "", ir.wtype(c) or ir.qtype(c)).split("::")[-1].strip()
+            recs = [r for r in d.walk() if r.get("kind") == "CXXRecordDecl" and r.get("name") == tn and ir.in_repo(r) and
+                    any(x.get("kind") == "FieldDecl" for x in ir.kids(r))] if tn and tn[0].isalpha() and tn not in ("IT", "ITV", "ITB", "It") else []
+            if recs:
+                composite[c["name"]] = (recs[0], [x["name"] for x in ir.kids(recs[0]) if x.get("kind") == "FieldDecl"])
+        flat = []
+        for f in fields:
+            flat += ["%s.%s" % (f, g) for g in composite[f][1]] if f in composite else [f]
+        top_fields = fields
+        fields = flat
         scale = [f for f in fields if f == "m_step"]
         other = [f for f in fields if f.startswith("p_")]
         pos = [f for f in fields if f not in scale and f not in other]
         defs = method_defs(d, cname)
+        sub_defs = {}
+        for f, (rec, _) in composite.items():
+            for k_, v_ in method_defs(d, rec["name"]).items():
+                if k_ not in defs and not k_.startswith("operator"):
+                    sub_defs[k_] = v_
+
+        def getf(o, f):
+            for part in f.split("."):
+                o = o[part] if isinstance(o, dict) else o[1][part]
+            return o
         # free-function forms delegate to members (equal / less_than) for xstepping_iterator
         alias = {"operator==": "equal", "operator<": "less_than"}
 
         def make(prefix):
-            o = {f: Poly.sym(prefix + f) for f in fields}
-            o["__pos__"] = set(pos)
+            o = {}
+            for f in top_fields:
+                if f in composite:
+                    sub = {g: Poly.sym("%s%s.%s" % (prefix, f, g)) for g in composite[f][1]}
+                    sub["__pos__"] = {g for g in composite[f][1] if "%s.%s" % (f, g) in pos}
+                    o[f] = ("obj", sub)
+                else:
+                    o[f] = Poly.sym(prefix + f)
+            o["__pos__"] = set(f for f in pos if "." not in f)
             return ("obj", o)
         unit = (lambda f: Poly.sym("T.m_step")) if scale else (lambda f: Poly.const(1))
         for name in (RANDOM_PRIMS if kind == "random" else BIDIR_PRIMS):
@@ -714,6 +757,7 @@ def rule_step(rep, d, classes):
                 env[ps[0]["id"]] = rhs
             it = PosInterp(d)
             it.methods = {k_: v_ for k_, v_ in defs.items() if not k_.startswith("operator") and k_ not in ("equal", "less_than")}
+            it.methods.update(sub_defs)
             it.ops = defs
             it.current_fn = fn
             try:
@@ -781,15 +825,15 @@ def rule_step(rep, d, classes):
                     bad = []
                     for f in fields:
                         want = Poly.sym("T." + f) + (amount * unit(f) * Poly.const(sign) if f in pos else Poly())
-                        if th[f] != want:
-                            bad.append("%s becomes %s, expected %s" % (f, vshow(th[f]), want.show()))
+                        if getf(th, f) != want:
+                            bad.append("%s becomes %s, expected %s" % (f, vshow(getf(th, f)), want.show()))
                     if not (isinstance(ret, tuple) and ret[0] == "obj" and ret[1] is th):
                         bad.append("does not return *this")
                     if bad:
                         rep.violates("C12.step", label, "position update", where=where, scenario=scen, detail="; ".join(bad))
                     else:
                         rep.holds("C12.step", label, "position update", where=where, scenario=scen,
-                                  detail=", ".join("%s -> %s" % (f, vshow(th[f])) for f in pos))
+                                  detail=", ".join("%s -> %s" % (f, vshow(getf(th, f))) for f in pos))
                 elif name == "operator-":
                     cands = []
                     for f in pos:
